@@ -1068,9 +1068,18 @@ def _c19_predicates(rep, t, x, case, tag):
 # ------------------------------------------------------------------------------------------------
 # deterministic runs replayed through the COMPOSED model Det.step (DetRun.lean)
 
+def _base_two(t):
+    """the composed models (Det / Full / Opt) snap candidates to a DYADIC mesh exactly (Rat arithmetic): only runs whose poll-mesh base is 2 are
+    replayed through them; other bases are covered by the controller model alone (exponents)"""
+    try:
+        return float(t["hdr"]["opts"].get("poll_mesh_multiplier", 2.0) or 2.0) == 2.0
+    except (TypeError, ValueError, KeyError):
+        return False
+
+
 def det_extract(t):
     """Oracle stream and initial state of one deterministic traced run for `det.replay` (None if not applicable)."""
-    x = ctl_extract(t)
+    x = ctl_extract(t) if _base_two(t) else None
     if x is None or x.get("nan_zs"):
         return None
     ev = t["events"]
@@ -1196,7 +1205,7 @@ def det_replay(ctx, rep):
 # runs in ANY noise mode replayed through the composed model Full.step (FullRun.lean)
 
 def full_extract(t):
-    x = ctl_extract(t)
+    x = ctl_extract(t) if _base_two(t) else None
     nx = noisy_extract(t) if x is not None else None
     if x is None or nx is None or x.get("nan_zs"):
         return None
@@ -1265,7 +1274,7 @@ def full_extract(t):
     return {"req": req, "iters": iters, "x": x, "nx": nx}
 
 
-def _compare_full_states(rep, d, states, stats, tag, case):
+def _compare_full_states(rep, d, states, stats, tag, case, t=None):
     """Per-iteration comparison of a run replayed through Full.step (shared by full.replay and whole.replay). False at the first disagreement."""
     x, iters = d["x"], d["iters"]
     for k, (st, it, o) in enumerate(zip(states, iters, x["outs"])):
@@ -1294,6 +1303,20 @@ def _compare_full_states(rep, d, states, stats, tag, case):
             if mod != obsv:
                 rep.disagree("Full.step ~ optimize loop", f"iteration {k}: model (fc,nRec,sc,ss,msi,iter,finished,u,yval,fval,fsd)={mod} observed {obsv}; {tag}", case)
                 return False
+            # the search-mesh exponent the next pass starts with and the search spree (the mesh state the whole-call theorems of C13 speak of)
+            if "ssiNextStart" in c and "ssi" in nxt and (c["ssiNextStart"], c.get("spree")) != (nxt["ssi"], nxt.get("spree", c.get("spree"))):
+                rep.disagree("Full.step ~ optimize loop (search mesh)", f"iteration {k}: model (ssi at next loop start, spree)={(c['ssiNextStart'], c.get('spree'))} "
+                             f"observed {(nxt['ssi'], nxt.get('spree'))}; {tag}", case)
+                return False
+        elif t is not None and t.get("error") is None and t.get("final") and "msg" in c:
+            # loop exit: mesh exponent, finished flag and the KIND of the termination message, all derived by the composed model
+            f = t["final"]
+            mod = (c["msi"], c["finished"], c["msg"])
+            obsv = (f["msi"], True, msg_kind(f["msg"]))
+            stats["exits_compared"] = stats.get("exits_compared", 0) + 1
+            if mod != obsv:
+                rep.disagree("Full.step ~ optimize loop (exit)", f"last iteration {k}: model (msi,finished,msg)={mod} observed {obsv}; {tag}", case)
+                return False
     return True
 
 
@@ -1320,7 +1343,7 @@ def full_replay(ctx, rep, modes=("det", "auto", "decl", "he")):
         case = {"kind": "full_run", "spec": sp}
         stats["runs"] += 1
         stats["by_mode"][sp["mode"]] = stats["by_mode"].get(sp["mode"], 0) + 1
-        _compare_full_states(rep, d, r["states"], stats, tag, case)
+        _compare_full_states(rep, d, r["states"], stats, tag, case, t)
     return stats
 
 
@@ -1390,11 +1413,11 @@ WHOLE_PLAIN_OPTIONS = {"n_search", "max_fun_evals", "noise_final_samples", "tol_
                        "tol_noise", "n_train_max", "n_train_min", "display", "search_n_try", "n_search_iter", "random_seed"}
 
 
-def whole_replay(ctx, rep, modes=("det", "auto", "decl", "he"), plain_only=False):
+def whole_replay(ctx, rep, modes=("det", "auto", "decl", "he"), plain_only=False, allow_fit_faults=False):
     """Every traced run through Opt.init / Full.step / Opt.finish: the initial phase and the final re-sampling are derived by the model.
     `plain_only`: leave out runs whose options switch on logic the whole-call model does not transcribe (pools that toggle every boolean option)."""
     traces = [t for t in get_pool(ctx) if (not plain_only or (set(t["spec"].get("options") or {}) <= WHOLE_PLAIN_OPTIONS and not t["spec"].get("np_options"))) and t["constructed"] and t["hdr"] is not None and t.get("final") and t["spec"]["mode"] in modes
-              and not t.get("ei_script") and not t.get("es_script") and not t.get("gp_faults") and not t.get("predict_faults") and not t.get("fault")
+              and not t.get("ei_script") and not t.get("es_script") and (allow_fit_faults or not t.get("gp_faults")) and not t.get("predict_faults") and not t.get("fault")
               and not t.get("update_faults") and not t["hdr"]["opts"].get("stobads") and t["error"] is None]
     items, skipped = [], {}
     for t in traces:
@@ -1431,7 +1454,7 @@ def whole_replay(ctx, rep, modes=("det", "auto", "decl", "he"), plain_only=False
                          f"model (unc, func_count, rows, loop budget, stall limit, u, yval, fval, fsd)={mod} observed {obsv}; {tag}", case)
             continue
         # ---- loop ----
-        if not _compare_full_states(rep, d, r["states"], stats, tag, case):
+        if not _compare_full_states(rep, d, r["states"], stats, tag, case, t):
             continue
         if len(r["states"]) != len(d["iters"]):
             continue         # the model stopped earlier/later: reported by the controller correspondence
